@@ -179,7 +179,11 @@ def run_case(args):
                 prior = []
                 for _ in range(rng.randint(1, 2)):
                     q = gen_params(rng)
-                    if rng.random() < 0.5:
+                    if rng.random() < 0.35:
+                        # the very same parameter set under another seed: same names, other exploits / hosts - what the
+                        # object remembers per name or per configuration fits the names but not the scenario
+                        q = dict(params, seed=rng.randint(0, 10 ** 6))
+                    elif rng.random() < 0.5:
                         q["uniform"] = params["uniform"]
                         q["num_services"] = min(9, params["num_services"] + rng.randint(1, 3))
                         q["num_processes"] = min(9, params["num_processes"] + rng.randint(0, 2))
